@@ -490,3 +490,105 @@ N('c05-ifend-local', 'C05', CODEGEN,
 N('c05-address-after-local', 'C05', LOADER,
   "        new_routine.set_address(len(self._routine_segment) + 1)",
   "        new_routine.set_address(1 + len(self._routine_segment))")
+
+# ------------------------------------------------------------------ C06
+B('c06-breakpoint-no-return', 'C06', 'R06.a', PARSE,
+  "        self._code_gen.add_instruction(OpCode.BREAKPOINT)\n        return self.next_token()",
+  "        self._code_gen.add_instruction(OpCode.BREAKPOINT)")
+B('c06-silent-false', 'C06', 'R06.a', PARSE,
+  """        if not self._context.in_loop():
+            return self.trigger_error('Encountered "break" not inside loop.')""",
+  """        if not self._context.in_loop():
+            return False""")
+B('c06-predicate-as-failure', 'C06', 'R06.a', PARSE,
+  """        if not self._at_rvalue(False):
+            return self.token_error('Needed light name, got {}')""",
+  """        if not self._at_rvalue(False):
+            return False""")
+B('c06-bare-return', 'C06', 'R06.a', LOOP,
+  """        if not self.current_token.is_a(TokenTypes.NAME):
+            return self.token_error('Not a variable name: "{}"')""",
+  """        if not self.current_token.is_a(TokenTypes.NAME):
+            return""")
+B('c06-pause-no-advance', 'C06', 'R06.c', PARSE,
+  "        self._add_instruction(OpCode.PAUSE)\n        self.next_token()\n        return True",
+  "        self._add_instruction(OpCode.PAUSE)\n        return True")
+B('c06-wait-no-advance', 'C06', 'R06.c', PARSE,
+  "        self._add_instruction(OpCode.WAIT)\n        return self.next_token()",
+  "        self._add_instruction(OpCode.WAIT)\n        return True")
+B('c06-members-lookup', 'C06', 'R06.d', LEX,
+  "        token_type = _KEYWORDS.get(word)", "        token_type = TokenTypes.__members__.get(word.upper())")
+B('c06-case-fold', 'C06', 'R06.d', LEX,
+  "        token_type = _KEYWORDS.get(word)", "        token_type = _KEYWORDS.get(word.lower())")
+B('c06-eof-is-word', 'C06', 'R06.d', LEX,
+  "    TokenTypes.COMPARE, TokenTypes.EOF, TokenTypes.ERROR,", "    TokenTypes.COMPARE, TokenTypes.ERROR,")
+B('c06-uminus-unguarded', 'C06', 'R06.e', PARSE,
+  """                if not isinstance(value, (int, float)):
+                    return self.token_error(
+                        'A minus is allowed only for numbers, got "{}".')
+""", "")
+B('c06-format-parse-unguarded', 'C06', 'R06.e', IOPARSER,
+  """        try:
+            num_unnamed = sum(
+                (1 for field in string.Formatter().parse(format_str)
+                 if field[1] is not None
+                 and (len(field[1]) == 0 or field[1].isdecimal())))
+        except ValueError as ex:
+            return self.trigger_error(
+                'Invalid format string "{}": {}'.format(format_str, ex))
+""", """        num_unnamed = sum(
+            (1 for field in string.Formatter().parse(format_str)
+             if field[1] is not None
+             and (len(field[1]) == 0 or field[1].isdecimal())))
+""")
+B('c06-units-unguarded', 'C06', 'R06.e', PARSE,
+  """        if self._current_token.token_type not in (
+                TokenTypes.RAW, TokenTypes.RGB, TokenTypes.LOGICAL):
+            return self.token_error('Invalid parameter "{}" for units.')
+""", "")
+B('c06-units-guard-too-wide', 'C06', 'R06.e', PARSE,
+  "                TokenTypes.RAW, TokenTypes.RGB, TokenTypes.LOGICAL):",
+  "                TokenTypes.RAW, TokenTypes.RGB, TokenTypes.LOGICAL, TokenTypes.ALL):")
+B('c06-number-guard-removed', 'C06', 'R06.e', PARSE,
+  """        if self._current_token.is_a(TokenTypes.NUMBER):
+            value = int(text) if Lex.is_int(text) else float(text)
+        elif self._current_token.is_a(TokenTypes.LITERAL_STRING):""",
+  """        if not self._current_token.is_a(TokenTypes.LITERAL_STRING):
+            value = int(text) if Lex.is_int(text) else float(text)
+        elif self._current_token.is_a(TokenTypes.LITERAL_STRING):""")
+B('c06-failed-compile-keeps-program', 'C06', 'R06.f', SCRIPTJOB,
+  """        else:
+            self._program = None
+            logging.error(self._parser.get_errors())""",
+  """        else:
+            self._program = self._parser.get_program()
+            logging.error(self._parser.get_errors())""")
+B('c06-execute-unguarded', 'C06', 'R06.f', SCRIPTJOB,
+  """        if self._program is not None:
+            self._machine.reset()
+            self._machine.run(self._program)""",
+  """        self._machine.reset()
+        self._machine.run(self._program)""")
+B('c06-from-string-sentinel', 'C06', 'R06.h', TIMEPAT,
+  "                return TimePattern(hours, minutes)\n        return None",
+  "                return TimePattern(hours, minutes)\n        return TimePattern(None, None)")
+B('c06-macro-none-test', 'C06', 'R06.h', PARSE,
+  "            if inner_macro.undefined:", "            if inner_macro is None:")
+N('c06-error-via-local', 'C06', PARSE,
+  """        if not self._context.in_loop():
+            return self.trigger_error('Encountered "break" not inside loop.')""",
+  """        if not self._context.in_loop():
+            self.trigger_error('Encountered "break" not inside loop.')
+            return False""")
+N('c06-split-and', 'C06', PARSE,
+  "        return self._body() and self._eof()",
+  "        if not self._body():\n            return False\n        return self._eof()")
+N('c06-keywords-explicit-dict', 'C06', LEX,
+  """_KEYWORDS = {
+    token_type.name.lower(): token_type for token_type in TokenTypes
+    if token_type not in _NON_KEYWORDS}""",
+  """_KEYWORDS = dict(
+    (token_type.name.lower(), token_type) for token_type in TokenTypes
+    if token_type not in _NON_KEYWORDS)""")
+N('c06-try-broader', 'C06', IOPARSER,
+  "        except ValueError as ex:", "        except (ValueError, IndexError) as ex:")
